@@ -41,6 +41,13 @@ from mpilot.commands import Command
 class Delta(Command):
     output = params.StringParameter()
     def execute(self, **kw): return "other.Delta"
+class Not(Command):
+    """A user command whose name differs from an EEMS 2.0 name (NOT) in case only."""
+    output = params.StringParameter()
+    def execute(self, **kw): return "other.Not"
+class Max(Command):
+    output = params.StringParameter()
+    def execute(self, **kw): return "other.Max"
 ''',
     "upkg/__init__.py": '''
 from mpilot import params
@@ -173,6 +180,25 @@ def describe(libs):
             lookups[form] = type(e).__name__
         except Exception as e:
             lookups[form] = "raw:" + type(e).__name__
+    # a user command named like an EEMS 2.0 command except for case, used from a 2.0-style file: which class it resolves to
+    for form, text in (("eems2-user-Not", "Not(NewFieldName = S)"), ("eems2-user-Max", "Max(NewFieldName = S)\nMax(NewFieldName = T)")):
+        try:
+            q = Program.from_source(text, libraries=tuple(libs))
+            c = q.commands["S"]
+            lookups[form] = "loaded:%s.%s" % (type(c).__module__, type(c).__name__)
+        except MPilotError as e:
+            lookups[form] = "%s:%s" % (type(e).__name__, getattr(e, "name", None))
+        except Exception as e:
+            lookups[form] = "raw:" + type(e).__name__
+    # misspelt names: the whole message a user gets (it may only speak about what this program can use)
+    for typo in ("Alpa", "Delt", "Gama", "EEMSReed", "PkgOn", "Summ", "Shard"):
+        try:
+            Program.from_source("S = %s()" % typo, libraries=tuple(libs))
+            lookups["typo-" + typo] = "loaded"
+        except MPilotError as e:
+            lookups["typo-" + typo] = "%s:%s:%s" % (type(e).__name__, sorted((k, repr(v)) for k, v in vars(e).items()), str(e))
+        except Exception as e:
+            lookups["typo-" + typo] = "raw:" + type(e).__name__
     return {"outcome": "ok", "library": lib, "lookups": lookups}
 
 
